@@ -736,6 +736,9 @@ impl Module {
                         }
                         other => return Err(format!("attribute offset form {other:?}").into()),
                     },
+                    // a plain number: readable, but the model cannot tell whether it is the Rust field's offset - the
+                    // executed probe compares it with the real `offset_of!`
+                    Val::Int(n, _) => (imp.self_ty.clone(), format!("<literal {n}>")),
                     other => return Err(format!("attribute offset form {other:?}").into()),
                 };
                 attrs.push(VertexAttr { format, offset_struct: os, offset_field: of, location: a.field("shader_location")?.as_u64()? });
